@@ -43,6 +43,7 @@ LEVEL = {
 }
 LEVEL["decided"] += " (R20.5) applies to every function that is handed an iterable and also covers the library's own collecting functions; (R20.7) no stored exception instance is raised (a re-raised instance accumulates one traceback entry and frame per raise)."
 LEVEL["decided"] += " R20.5 also: a tool without a documented window never hands its source to one that has one (batched, nlargest, nsmallest, tee); (R20.8) the tee object refers to its children's buffers only through the list a finished child removes its buffer from."
+LEVEL["decided"] += ' (R20.9) a container a streaming tool creates is not filled by a library helper / closure it is handed to.'
 LEVEL["technique"] += '; evaluated tee construction (heap reachability of the buffers)'
 
 STREAMING = c01.PASS_THROUGH + c01.TRANSFORMING + [
